@@ -1,24 +1,35 @@
 #!/usr/bin/env python3
-"""tools/design_table.py : print the rows of DESIGN.md section 11.1 (cases / executions / states / wall) from /verif/evidence/*.json."""
-import glob, json, os
+"""tools/design_table.py [thorough_times_file] : print DESIGN.md section 11.1 (quick-tier coverage per check) from /verif/evidence/*.json."""
+import glob, json, os, sys
+th = {}
+if len(sys.argv) > 1 and os.path.exists(sys.argv[1]):
+    for l in open(sys.argv[1]):
+        p = l.split()
+        if len(p) == 3:
+            th[p[0]] = p[2]
+
+
+def find(d, key):
+    if isinstance(d, dict):
+        if key in d:
+            return d[key]
+        for v in d.values():
+            r = find(v, key)
+            if r is not None:
+                return r
+    if isinstance(d, list):
+        for v in d:
+            r = find(v, key)
+            if r is not None:
+                return r
+    return None
+
+
+print("| id | cases | executions of the real seam | compared with the reference | abstract states (non-trivial) | distinct outcomes | quick wall | thorough wall |")
+print("|----|------:|------:|------:|------:|------:|------:|------:|")
 for f in sorted(glob.glob("/verif/evidence/C*.json")):
     e = json.load(open(f))
     pid = os.path.basename(f)[:-5]
-    s = json.dumps(e)
-    def find(d, key):
-        if isinstance(d, dict):
-            if key in d:
-                return d[key]
-            for v in d.values():
-                r = find(v, key)
-                if r is not None:
-                    return r
-        if isinstance(d, list):
-            for v in d:
-                r = find(v, key)
-                if r is not None:
-                    return r
-        return None
-    print("| %s | %s cases | %s executions | %s compared | %s states (%s non-trivial) | %s s |" % (
+    print("| %s | %s | %s | %s | %s (%s) | %s | %.0f s | %s |" % (
         pid, find(e, "evaluations"), find(e, "transitions"), find(e, "traces_validated_against_impl"), find(e, "states"), find(e, "distinct_nontrivial"),
-        find(e, "wall_s")))
+        find(e, "distinct_outcomes"), float(find(e, "wall_s") or 0), th.get(pid, "-")))
